@@ -117,6 +117,9 @@ func ExploreScenario(c *Ctx, prop, name string, opt sched.Options, body func(), 
 		return r
 	}
 	opt.Deadline = c.Deadline
+	if os.Getenv("VERIF_NOCACHE") != "" {
+		opt.NoCache = true
+	}
 	st := sched.Explore(opt, body, judge)
 	r := FromStats(prop, name, opt.Bound, st)
 	r.WallS = time.Since(t0).Seconds()
